@@ -34,8 +34,12 @@ def rules(chk, db):
     ilrules.match_sets(chk, db, 'MS')
     ilrules.float_bool(chk, db, 'FB')
     encrules.write_rules(chk, db, want=('LEN', 'ELT', 'GRD'))
-    encrules.read_rules(chk, db, want=('LEN', 'ELT', 'GRD'))
+    encrules.read_rules(chk, db, want=('LEN', 'ELT', 'GRD', 'RST'))
+    chk.rule('BS', 'BaseEncodingSize = 1 + payload width for every class; scalar Size = BaseEncodingSize(Prefix)', minimum=10)
+    ilrules.base_size(chk, db, 'BS')
     encrules.narrowing(chk, db, 'NR', {'ReadPayload', 'Read', 'WritePayload', 'Write'})
+    chk.rule('PK', 'Prefix() and Match() of every container kind agree on the documented container prefix', minimum=60)
+    encrules.prefix_kind(chk, db, 'PK', ('Prefix', 'Match'))
     chk.rule('CO', 'wrapper encoders are composed of exactly the documented component encodings', minimum=30)
     encrules.composition(chk, db, 'CO', ('WritePayload', 'ReadPayload', 'Prefix', 'Match'))
     w = chk.extra.get('struct_member_order_w', {})
